@@ -131,10 +131,11 @@ def gen_script(r, p, nops, style):
             elif y < 76: ops.append('G')
             elif y < 84: ops.append('U')
             else: ops.append('N')
-        elif x < 960: ops.append('T')
+        elif x < 945: ops.append('T')
+        elif x < 960: ops.append('O')
         elif x < 985: ops.append('N')
         else: ops.append('H')
-    ops += ['N', 'T', 'U', 'H']
+    ops += ['N', 'T', 'O', 'U', 'H']
     return ' '.join(ops)
 
 
@@ -161,6 +162,20 @@ def gen_cases(ctx, scale):
                 if p['cap'] == BIG and hashmode in (1, 3): nops = min(nops, 300)
                 cases.append(case_line(p, logstart, hashmode, gen_script(r, p, nops, style)))
         out[tu] = cases
+    # aimed: long probe chains under a constant hash (lossy max-probe encodings: > 7 for OpenN1/Open8, > 255 for Open2N2;
+    # linear chains that wrap around the table), then removals in the middle of the chain and lookups behind the holes
+    for name, n in (('S.O1.c.q', 300), ('S.O3.b.q', 160), ('S.N1.c.q', 60), ('S.O8.b.q', 120), ('S.ON.b.q', 60), ('S.L1.c.q', 60), ('S.L4.b.q', 120)):
+        p = params(name); tu = [t for t, ns in CONFIGS.items() if name in ns][0]
+        for hm in (1, 3):
+            nn = n * (3 if scale > 1 else 1)
+            ks = list(range(1, nn + 1)); r.shuffle(ks)
+            ops = ['I %d %d' % (k, k % 1000) for k in ks]
+            ops += ['N', 'H']
+            rm = ks[::3]
+            ops += ['%s %d' % (r.choice(['R', 'P']), k) for k in rm]
+            ops += ['F %d' % k for k in ks[:40]] + ['F %d' % (nn + 5), 'T']
+            ops += ['I %d 7' % k for k in rm[:20]] + ['D 2 0', 'T', 'Y', 'T', 'N', 'H']
+            out[tu].append(case_line(p, max(min_log_start(p), 2), hm, ' '.join(ops)))
     return out
 
 
@@ -194,11 +209,32 @@ def oracle_scan(ctx, cases, lines, tu):
 
 
 def build(ctx):
-    jobs = [(tu + '.cpp', tu, []) for tu in CONFIGS]
-    res = ctx.cxx_many(jobs)
-    if any(v is None for v in res.values()):
-        ctx.stage('build-harness', False, getattr(ctx, 'last_cxx_error', ''))
-        return None
+    """build the harness TUs in parallel; a TU is rebuilt only when its inputs changed (key = sha256 of the harness sources,
+    every header under <repo>/include/momo, the tier) - the binary is a function of exactly these"""
+    import hashlib, glob
+    hh = hashlib.sha256()
+    for f in sorted(glob.glob(os.path.join(ctx.repo, 'include', 'momo', '**', '*.h'), recursive=True)) + \
+            [os.path.join(ctx.pdir, 'c01_harness.h'), os.path.join(ctx.root, 'harness', 'private_access.h')]:
+        hh.update(f.encode()); hh.update(open(f, 'rb').read())
+    hh.update(ctx.tier.encode())
+    res = {}; jobs = []
+    for tu in CONFIGS:
+        k = hashlib.sha256(hh.digest() + open(os.path.join(ctx.pdir, tu + '.cpp'), 'rb').read()).hexdigest()
+        exe = os.path.join(ctx.build, tu + ('.san' if ctx.tier == 'thorough' else ''))
+        keyf = exe + '.key'
+        if os.path.exists(exe) and os.path.exists(keyf) and open(keyf).read() == k and os.environ.get('VERIF_NO_CACHE') != '1':
+            res[tu] = exe
+        else:
+            if os.path.exists(keyf): os.remove(keyf)
+            jobs.append((tu + '.cpp', tu, [])); res[tu] = ('build', k)
+    if jobs:
+        built = ctx.cxx_many(jobs)
+        for tu, v in built.items():
+            if v is None:
+                ctx.stage('build-harness', False, getattr(ctx, 'last_cxx_error', ''))
+                return None
+            open(v + '.key', 'w').write(res[tu][1]); res[tu] = v
+    ctx.coverage['harness_rebuilt'] = [j[1] for j in jobs]
     return res
 
 
@@ -215,7 +251,7 @@ def replay(ctx, rp):
     print('case:', case[:400], '\nimplementation:', (lines[0] if lines else err)[:2000])
     bad = oracle_scan(ctx, [case], lines, tu) if rc == 0 and lines else [(case, err, 'harness crashed')]
     model_bad = False
-    if rp.get('model') is not None and lines and lines[0] != rp['model']:
+    if rp.get('model') is not None and lines and lines[0][:3000] != rp['model']:
         print('model (recorded):', rp['model'][:2000]); model_bad = True
     if bad or model_bad:
         print('VIOLATION property=C01 replay=%s' % ctx.replay); return 1
